@@ -152,7 +152,7 @@ func c16Exec(r *vfRun) {
 				v.fs.nodes["/dd/"+name] = nd
 				w := entry{size: int64(len(nd.data)), perm: nd.mode & (os.ModePerm | os.ModeDir), mtime: nd.mtime, uid: nd.uid, gid: nd.gid, ids: true}
 				if sc.cfg("shapes", 0) != 0 {
-					switch nd.shape = byte(vfMix(sc.Seed^0x5a, uint64(i)) % 3); nd.shape {
+					switch nd.shape = byte(vfMix(sc.Seed^0x5a, uint64(i)) % 4); nd.shape {
 					case 1:
 						w.uid, w.gid = 0, 0 // not reported, so the client must show none
 					case 2:
